@@ -63,7 +63,35 @@ def run(R):
     else:
         g = PR.discr_guard(cpe, gv[0], "Some")
         if g is None:
-            R.violation("C02.convert", "extract|unbranched", "the result of get_value is not matched", [gv[0].loc()])
+            # combinator spelling: get_value(..).map/and_then(..).unwrap_or[_else](default)
+            CONV = re.compile(r"ValueType::(convert_from_json|parse)$")
+            defaults = []
+            for c in cpe.calls:
+                if re.search(r"^core::option::Option::(unwrap_or|unwrap_or_else|map_or|map_or_else)$", short(c.name)) and \
+                        any(o.kind == "call" and o.call is gv[0] for o in F.origins(cpe, c.args[0], depth=12)):
+                    defaults.append(c)
+            if not defaults:
+                R.violation("C02.convert", "extract|unbranched", "the result of get_value is neither matched nor given a default", [gv[0].loc()])
+            for c in defaults:
+                conv_on_recv = False
+                for o in F.origins(cpe, c.args[0], depth=12):
+                    if o.kind != "call":
+                        continue
+                    if CONV.search(short(o.call.name)):
+                        conv_on_recv = True
+                    if short(o.call.name).endswith("Option::and_then") or short(o.call.name).endswith("Option::filter"):
+                        for ck in (o.call.func.get("closure_args") or []):
+                            cf = P.fns.get(ck)
+                            if cf is not None and (any(CONV.search(short(c2.name)) for c2 in cf.calls) or
+                                                   any(CONV.search(short(c3.name)) for k3 in [k for c2 in cf.calls for k in P.callee_keys(cf, c2)]
+                                                       for c3 in P.fns[k3].calls)):
+                                conv_on_recv = True
+                if conv_on_recv:
+                    R.violation("C02.convert", "extract|default-on-present",
+                                "DEFAULT replaces the outcome of the type conversion (%s on a value that went through convert_from_json / parse): "
+                                "a present but wrong-typed leaf yields the DEFAULT instead of NULL" % short(c.name).split("::")[-1], [c.loc()])
+                else:
+                    R.ok("C02.convert", "extract|default", "DEFAULT only where the path is absent (combinator form)", c.loc())
         else:
             sw, some_t, none_ts = g
             some_reg = set(b for b in cpe.reach if cpe.dominates(some_t, b))
